@@ -121,6 +121,12 @@ def verdict(index, entry, aspect, chunk=None):
                 if len(p["agg"]) != 1:
                     return "undecided", f"instance run {tag}: {len(p['agg'])} aggregator calls on a returning path", {}
                 sp = p["agg"][0].get("rowspan")
+                unw = [e for e in p["res"].events if e["kind"] == "unwritten_rows"]
+                if unw or (isinstance(sp, tuple) and sp and sp[0] == "buf"):
+                    # a pre-allocated buffer filled block of rows by block of rows is read although some rows were never written: uninitialised memory
+                    missing = unw[0]["missing"] if unw else [i for i, c in enumerate(sp[1]) if c is None]
+                    return "violated", (f"for {tag}: rows {missing} of the buffer handed to the aggregator were never written (the blocks of the sweeps {_fmt(sw)} were stored over one another): "
+                                        "they hold uninitialised memory"), {"m": m, "k": k, "unwritten": missing}
                 if not isinstance(sp, tuple):
                     return "undecided", f"instance run {tag}: the rows of the matrix handed to the aggregator were lost", {}
                 if _rows(sp) != list(range(m)):
